@@ -28,7 +28,7 @@ ARG_BODY = {
     "str": "let d = a.bytes().map(|b| b as i64).sum::<i64>() + a.len() as i64 * 1000; log(d); log(a.as_ptr() as i64);",
     "opt": "let d = match a { None => -1, Some(v) => (v % 100000) as i64 }; log(d);",
     "optnpo": "let d = match a { None => -1, Some(v) => *v as i64 }; log(d); log(a.map(|v| v as *const u64 as i64).unwrap_or(0));",
-    "optptr": "let d = match a { None => -1, Some(p) => (p as usize % 100003) as i64 }; log(d);",
+    "optptr": "let d = match a { None => -1, Some(p) => unsafe { *p as i64 * 7 + *p.add(3) as i64 } }; log(d); log(a.map(|p| p as i64).unwrap_or(0));",
     "result": "let d = match a { Ok(v) => v as i64, Err(e) => -(e as i64) }; log(d);",
     "into": "let v: u64 = a.into(); let d = v as i64; log(d);",
     "callback": "let mut a = a; let base = (self.st.get() % 50) as u64; let n = (0..3u64).map(|i| base + i).feed_into_mut(&mut a); let d = n as i64; log(d);",
@@ -110,7 +110,7 @@ def arg_setup(arg, v):
                 "av", "let post: Vec<i64> = vec![cellv as i64];")
     if arg == "optptr":
         val = ["None", "Some(pbuf.as_ptr())"][v]
-        return ("let pbuf: [u8; 4] = [1, 2, 3, 4]; let av: Option<*const u8> = %s; let sent_d = match av { None => -1, Some(p) => (p as usize %% 100003) as i64 }; let sent_addr = 0i64;" % val,
+        return ("let pbuf: [u8; 4] = [1, 2, 3, 4]; let av: Option<*const u8> = %s; let sent_d = match av { None => -1, Some(p) => unsafe { *p as i64 * 7 + *p.add(3) as i64 } }; let sent_addr = av.map(|p| p as i64).unwrap_or(0);" % val,
                 "av", "let post: Vec<i64> = vec![];")
     if arg == "result":
         val = ["Ok(3)", "Err(9)"][v]
